@@ -114,7 +114,7 @@ class LayerSim(Sim):
             x = small_values(rng, shape, dt, -3, 3) + dt(rng.choice([0, 0, 1.5, -4]))
             ev = {"k": "forward", "lid": lid, "x": enc(x), "repeat": rng.random() < 0.3}
             if kn["faulty"] and rng.random() < 0.15:
-                ev["fault"] = {"kind": rng.choice(["alloc", "interrupt"]), "at": 1}
+                ev["fault"] = {"kind": rng.choice(["alloc", "interrupt", "exit"]), "at": 1}
             return ev
         # dropout
         if r < kn["p_mode"] + 0.15 and st.last.get(lid):
